@@ -375,6 +375,18 @@ def quant(facts, t, mapping=None, depth=0):
         kind, call = 'exists', drop_lv(ts[2][0])
         if call_name(ts) == 'is_none':
             neg = not neg
+    if kind is None and is_call(ts, 'fold') and len(ts[2]) == 3 and ts[2][2][0] == 'closure' and drop_lv(ts[2][1])[0] == 'const' \
+            and drop_lv(ts[2][1])[2] == 'bool':
+        # fold(false, |seen, x| seen || P(x)) is `any`, fold(true, |ok, x| ok && P(x)) is `all`
+        cb_ = facts.cb(ts[2][2][1])
+        init = bool(drop_lv(ts[2][1])[1])
+        if cb_ is not None and closure_value(facts, cb_, acc=(not init)) is (not init):
+            bind = closure_bindings(ts)
+            if bind:
+                clo, m = bind[0]
+                m = dict(m)
+                m[('param', 2)] = m.get(('param', 3), m.get(('param', 2)))   # users look the item up under param 2
+                return {'kind': 'forall' if init else 'exists', 'neg': neg, 'src': ts[2][0], 'cb': cb_, 'm': m, 'acc': init, 'item_param': 3}
     if kind is None and ts[0] == 'call' and depth < 3:
         info = cinfo(ts[1])
         if info['local'] and info['uid']:
@@ -409,7 +421,7 @@ def pred_truth(facts, q, classify, domain, var):
         return r_
     out = {}
     for o in domain:
-        out[o] = Evaluator(facts, classify=cl, assumption={var: o}).ev(cit.ret)
+        out[o] = closure_value(facts, q['cb'], classify=cl, assumption={var: o}, acc=q.get('acc'))
     return out, bool(hit)
 
 
@@ -466,4 +478,48 @@ def ret_value(facts, body, evr):
         if v is None:
             return None
         vals.add(v)
+    return next(iter(vals)) if len(vals) == 1 else None
+
+
+def closure_value(facts, cb, classify=None, bool_atom=None, assumption=None, acc=None):
+    """Value a (pure) closure body returns under an assumption, decided per path (so `matches!`, `if`/`else`, `a || b`
+    inside the closure are fine).  acc = the assumed value of the accumulator parameter of a fold closure."""
+    asm = dict(assumption or {})
+    ba = bool_atom
+    if acc is not None:
+        asm['__acc'] = acc
+
+        def ba(t, inner=bool_atom):
+            if t == ('param', 2):
+                return '__acc'
+            return inner(t) if inner is not None else None
+    evr = Evaluator(facts, classify=classify, bool_atom=ba, assumption=asm)
+    it = interp(facts, cb)
+    rc = Reach(facts, cb, evr)
+    vals = set()
+    for (bb, si), w in it.ret_assigns.items():
+        if bb not in rc.reachable:
+            continue
+        cands = None
+        if isinstance(si, int):
+            st = cb.blocks[bb]['stmts'][si]
+            rv = st.get('rv', {})
+            loc, neg = None, False
+            if rv.get('k') == 'use' and rv['op']['k'] in ('copy', 'move') and not rv['op']['place']['proj']:
+                loc = rv['op']['place']['local']
+            elif rv.get('k') == 'unop' and rv.get('op') == 'Not' and rv['op1']['k'] in ('copy', 'move') and not rv['op1']['place']['proj']:
+                loc, neg = rv['op1']['place']['local'], True
+            if loc is not None and w.val[0] in ('phi', 'unop', 'lv') :
+                cands = []
+                for tm in rc.reaching_terms(loc, bb):
+                    v = evr.ev(tm)
+                    cands.append((not v) if (neg and isinstance(v, bool)) else v)
+        if cands is None:
+            cands = [evr.ev(alt) for alt in phi_alts(w.val)] if w.val[0] != 'phi' else [evr.ev(w.val)]
+        for v in cands:
+            if v is None:
+                return None
+            vals.add(v)
+    if not vals:
+        return evr.ev(it.ret)
     return next(iter(vals)) if len(vals) == 1 else None
